@@ -2331,7 +2331,31 @@ def extract_hidden_state(repo=None):
                     for a in st.names:
                         imported[a.asname or a.name] = (st.module or '') + '.' + a.name
 
+            # parameters of a class's __init__ with a mutable default: the object the default denotes is shared by every instance
+            # built without that argument, and an attribute of the same name holds it
+            shared_defaults = {}
+            for st in t.body:
+                if isinstance(st, ast.ClassDef):
+                    for b in st.body:
+                        if isinstance(b, ast.FunctionDef) and b.name == '__init__':
+                            pos = b.args.args
+                            for a, dflt in zip(pos[len(pos) - len(b.args.defaults):], b.args.defaults):
+                                if _is_container(dflt):
+                                    shared_defaults.setdefault(st.name, set()).add(a.arg)
+
             def scan(fn, where, cls):
+                if cls and shared_defaults.get(cls):
+                    for n in ast.walk(fn):
+                        e = None
+                        if isinstance(n, (ast.Assign, ast.AugAssign, ast.Delete)):
+                            tg_ = n.targets if isinstance(n, (ast.Assign, ast.Delete)) else [n.target]
+                            for x in tg_:
+                                if isinstance(x, ast.Subscript):
+                                    e = x.value
+                        elif isinstance(n, ast.Call) and isinstance(n.func, ast.Attribute) and n.func.attr in MUTATORS:
+                            e = n.func.value
+                        if isinstance(e, ast.Attribute) and isinstance(e.value, ast.Name) and e.value.id == 'self' and e.attr in shared_defaults[cls]:
+                            out.append((mod, where, f'writes self.{e.attr}, which holds the shared default of __init__ when none was given'))
                 local = {a.arg for a in fn.args.args + fn.args.kwonlyargs} | ({fn.args.vararg.arg} if fn.args.vararg else set()) \
                     | ({fn.args.kwarg.arg} if fn.args.kwarg else set())
                 for n in ast.walk(fn):
